@@ -51,6 +51,11 @@ CLAIMS = {
   text="Coq: C14_checks_spec (a rule with checks matches iff body matches and every check is true on the produced value, first failure wins), C14_conform (M = S with checks/externs as pure oracles: verdict, value passed to checks, consumed bytes, error), C14_run_checks (for arbitrary stateful hooks: directive order, stop at first false, ordinary Err at the body's end state), C14_extern (extern receives exactly the remaining input and the user state; Ok((v,n)) yields v and advances n through the checked advance). Correspondence: hook invocation logs and results equal the model's, with and without a user context.",
   note=TB + "User functions are oracles; the harness ships a fixed library with Gallina twins (Hooks.v).",
   technique="Coq simulation proof + wrapper-level lemmas + differential correspondence of hook-call logs"),
+ "C16": dict(
+  category="proof",
+  text="Model-level theorems (thin; the tie carries most of the weight): C16_types_sorted / C16_types_canonical (the only order-relevant container of the generator, the per-field type set, is kept strictly sorted by type name, so the emitted enum variants depend only on the set of types), C16_routes (build-script output = header + prefix + the one generate_code output), C16_facts (the translator's scan for HashMap/HashSet/clock/environment/randomness in codegen, cli, macro and runtime finds exactly the known occurrences: a HashSet used for membership only in sequence.rs and the parse cache; all modelled files match their templates). Oracle: byte equality of the code from the library call in 5 fresh processes with different environments, the peginator-cli binary, Compile::run (after header and prefix); the peginate! route is compiled and run and must behave like the parser built from the library output. Partial: that the Rust code has no other hidden input is established by the scan and the oracle, not by a theorem.",
+  note=TB,
+  technique="Coq lemmas on canonical ordered containers + source scan facts + byte-level differential runs across routes and processes"),
  "C17": dict(
   category="translation_validation",
   text="Re-bootstrapping on every run: stage 2 (the tree's own generator on grammar.ebnf), passed through rustfmt as bootstrap.sh does, is byte-identical to the shipped codegen/src/grammar/generated.rs after the header (identical programs agree on every text, valid or not - no sampling involved); the header CRC equals the CRC of the current grammar.ebnf; stage 3 (a generator rebuilt around stage 2 in a scratch copy) reproduces stage 2. If the texts differ, both front ends are compared on grammar texts. Coq side: C17_instance / C17_fields_ok - the grammar of grammars (AST regenerated through the shipped front end) is an instance of the general theorems.",
@@ -66,6 +71,11 @@ CLAIMS = {
   text="Coq theorems C19_balanced / C19_every_call (instance of Inv.m_invariant; every grammar incl. memoized and left-recursive rules, failing checks, externs, any hooks, any decision-point configuration): the tracer callback sequence of a returning parse is balanced (each print_trace_start followed by exactly one matching print_trace_result; running depth never below zero, zero at the end), a non-returning run produced a prefix of one. Correspondence: the recording tracer's sequence equals the model's log exactly on every stream case. Oracle: balance of the implementation's own sequence; NoopTracer vs recording tracer vs the real IndentedTracer (debug build, overflow checks) return the same result. Partial: 'the tracer log is write-only' (C19_transparent) is not yet a theorem about the model; it is covered by the oracle.",
   note=TB,
   technique="Coq generic invariant theorem instantiated with trace balance + exact trace correspondence"),
+ "C20": dict(
+  category="proof",
+  text="Model-level theorems (thin; the tie carries most of the weight): C20_pure / C20_fresh_cache (every parse call starts from a fresh state and a fresh ParseGlobal - empty cache, new tracer - so a sequence of calls returns the list of single-call results), C20_interleave / C20_schedule_irrelevant (parses acting on disjoint private components: every interleaving projects to each parse's sequential run), C20_facts (the translator's scan finds no static, thread_local, lazy_static, OnceCell, atomic, Mutex, RefCell or Cell in the runtime, the generator templates or the macro; grammar/mod.rs builds the ParseGlobal per call). Oracle: 16 threads x 3 repetitions parse permuted input sets on memoized / left-recursive / hook-using grammars and must reproduce the sequential results. Partial: real schedules, the memory model and data races are runtime behaviour a Gallina model cannot exhibit.",
+  note=TB,
+  technique="Coq interleaving lemma over independent state machines + source scan facts + concurrent differential runs"),
  "C10": dict(
   category="proof",
   text="Coq theorem C10_furthest: without memoized/left-recursive rules a reported error is the furthest-latest entry of the specification's log of failed attempts (lookahead scoping as the property states); C10_record_error pins the <= of record_error. Oracle on the implementation: position inside the input on a char boundary, never the sentinel, equal to the furthest-latest attempt of the extracted S. The 'really failed during that parse' clause for memoized/left-recursive grammars is checked by the oracle only (no theorem yet): partial.",
